@@ -628,6 +628,19 @@ def ev_key(d):
             if top is None:
                 continue
             allowed = set(names[(i // 12) * 12 + ((i % 12) + shift) % 12] for i in top)
+            if tag == "scale" and any(exact(y) != exact(x) * Fraction(num, den) for x, y in zip(du, arr[dfield])):
+                # the scaled durations were rounded to the field's type (float32: 3 * fl(1/12) is not fl(3/12)), so the
+                # transformed input is NOT an exact multiple of the original and its own exact correlations decide
+                # (found by the thorough tier, seed 7: an exact three-way tie A / Am / F of the cbms profiles,
+                # separated only by those roundings)
+                _, rs2 = exact_corrs(arr["pitch"], arr[dfield], mats[ps])
+                if rs2 is None:
+                    continue
+                pcs2 = np.mod(arr["pitch"], 12)
+                ex2 = all(exact(arr[dfield][np.where(pcs2 == pc)[0]].sum()) == sum((exact(x) for x in arr[dfield][pcs2 == pc]), Fraction(0))
+                          for pc in range(12))
+                tol2 = 1e-9 if ex2 else 1e-4
+                allowed |= set(names[i] for i, r in enumerate(rs2) if r >= max(rs2) - tol2)
             if name in set(names[i] for i in top) and nm2 not in allowed:
                 ev.oracle.append("key %s %s: estimate %r for the original, %r after %s (expected %s)" % (
                     ps, tag, name, nm2,
